@@ -1,8 +1,6 @@
 package verifsim
 
-func (r *e1Run) checkDAG(step, node int, why string)                 {}
-func (r *e1Run) afterLocalRecord(node, slot int, c *mCommit)         {}
-func (r *e1Run) installMonitors(node int, st *SimStore)              {}
+func (r *e1Run) scanSecret(node int, key, val []byte)                {}
 func (r *e1Run) encArgs(slot int) string                             { return "" }
 func (r *e1Run) noteSecrets(slot int, wants map[string]string)       {}
 func (r *e1Run) doSchema(step, node, b, c int)                       {}
